@@ -233,7 +233,9 @@ class FourierSeries:
         if not callable(ifftn):
             msg = f"Input ifftn is not callable: {ifftn}"
             raise TypeError(msg)
-        tim_ar = ifftn(self.data)
+        # the length of the time series is in the header: an odd length cannot be
+        # inferred from the number of Fourier bins
+        tim_ar = ifftn(self.data, self.header.nsamples)
         return timeseries.TimeSeries(tim_ar, self.header.new_header())
 
     def form_spec(self, *, interpolate: bool = False) -> PowerSpectrum:
